@@ -36,11 +36,12 @@ const (
 	KRamp
 	KMixed
 	KLimits // data built to reach the extreme tokens of the run / match coders (see expandInto)
+	KRecords // fixed-width text records (CR LF or LF line ends) whose width often divides the block size
 	NKinds
 )
 
 var KindNames = []string{"random", "text", "xml", "utf8", "dna", "exe-x86", "exe-arm", "wav", "bmp", "runs",
-	"skewed", "smallalpha", "repeat", "numeric", "base64", "same", "magic", "zeros", "ramp", "mixed", "limits"}
+	"skewed", "smallalpha", "repeat", "numeric", "base64", "same", "magic", "zeros", "ramp", "mixed", "limits", "records"}
 
 // Recipe describes a byte string; Expand builds it.
 type Recipe struct {
@@ -295,6 +296,38 @@ func expandInto(b []byte, kind int, seed uint64, p1, p2 int) {
 					b[i] = byte(r.intn(4))
 				}
 			}
+		}
+	case KRecords:
+		// Fixed-width records: with a width that divides the block size every block boundary falls at the same
+		// place of a record - with shift 1 between the CR and the LF of a line end, so that every block starts
+		// with a bare LF and ends with a CR.
+		w := []int{16, 24, 32, 64, 100, 128, 256}[p1%7]
+		crlf := (p1/7)%3 != 2
+		shift := p2 % 4
+		line := make([]byte, w)
+		pos := 0
+		for i := 0; i < shift && pos < n; i++ {
+			b[pos] = "\n  "[i]
+			pos++
+		}
+		for pos < n {
+			for j := range line {
+				line[j] = ' '
+			}
+			j := 0
+			for j < w-12 {
+				wd := words[r.intn(len(words))]
+				if r.intn(3) == 0 {
+					wd = fmt.Sprintf("%d", r.intn(100000))
+				}
+				j += copy(line[j:max(j, w-3)], wd) + 1
+			}
+			if crlf {
+				line[w-2], line[w-1] = '\r', '\n'
+			} else {
+				line[w-1] = '\n'
+			}
+			pos += copy(b[pos:], line)
 		}
 	case KDNA:
 		al := "ACGT"
